@@ -36,7 +36,7 @@ from common import Err, catch, zlit, qlit, zl, zll, optz
 
 PROPERTY = 'C03'
 PROPS_FILE = 'C03_Props.v'
-COQ_IMPORTS = ['C03_Model']
+COQ_IMPORTS = ['C03_Model', 'C03_Model_PM']
 TOL = F(1, 10**8)
 ORACLE_PREMISES = [
     'float64 / numpy arithmetic (dot, cross, sqrt of column norms, division) stays within 1e-8 relative of the exact rational model',
@@ -71,7 +71,8 @@ MODELLED = ('image.py _standardize_slice_indices, _standardize_row_column_indice
 STRATA = ['std_slice', 'std_slice_err', 'std_rc', 'std_rc_err', 'vol', 'vol_sub', 'vol_sub_err', 'src', 'src_irregular',
           'src_img',
           'tiled', 'tiled_err', 'pyramid', 'pyramid_err', 'pyr_multi', 'pyr_multi_err', 'tiled_place',
-          'tiled_place_err', 'vol_hist', 'vol_mem', 'vol_mem_err', 'src_mem', 'tiled_mem', 'tiled_place_mem']
+          'tiled_place_err', 'vol_hist', 'vol_mem', 'vol_mem_err', 'src_mem', 'tiled_mem', 'tiled_place_mem',
+          'vol_rd', 'src_rd', 'src_img_rd', 'tiled_rd', 'pm', 'pm_err', 'pm_tiled']
 NOT_EXECUTED = ['several focal planes in tiled images',
                 'pyramids with sop_instance_uids / segment channels (rank 4) in the several-sources modes',
                 'get_volume with rtol/atol other than the defaults',
@@ -725,6 +726,197 @@ def _mem_tiled_case(rng, placed, preset=None):
     return c
 
 
+# ---------------------------------------------------------------------------------------------
+# how the stored object is opened again, and derived images that are not segmentations
+# ---------------------------------------------------------------------------------------------
+_RD_FP = ['bytes', 'stream', 'path', 'pathlike']
+
+
+def _rd(rng, lazy=None):
+    """the stored object is written in DICOM file format and opened again: eagerly or with
+    lazy_frame_retrieval=True (io.ImageFileReader), from bytes / a binary stream / a path"""
+    return {'lazy': (rng.random() < 0.75) if lazy is None else lazy, 'fp': rng.choice(_RD_FP)}
+
+
+def _shape_with_residue(rng, res, rmax, cmax):
+    """rows, columns with rows * columns = res (mod 8): bit-packed frames of such a size start at bit offset
+    (frame index * res) mod 8 of a byte"""
+    pairs = [(r, c) for r in range(1, rmax + 1) for c in range(1, cmax + 1) if r * c >= 2 and (r * c) % 8 == res]
+    return rng.choice(pairs)
+
+
+def _rd_vol_case(rng, res=None, typ=None, lazy=None):
+    """a segmentation of a volume that is written to a file and opened again (eagerly / lazily); plane sizes
+    with every number of pixels modulo 8, several frames, read combined, per segment and by sub-region"""
+    c = _vol_case(rng, 'vol_rd')
+    c['S'] = rng.choice([2, 3, 4, 5, 6])
+    c['R'], c['C'] = _shape_with_residue(rng, rng.randrange(8) if res is None else res, 7, 9)
+    c['typ'] = typ or rng.choice(['BINARY', 'BINARY', 'BINARY', 'LABELMAP', 'FRACTIONAL'])
+    c['nseg'] = 1 if c['typ'] == 'FRACTIONAL' else rng.randint(1, 3)
+    if c['api'] == 'image' and c['typ'] != 'LABELMAP':
+        c['nseg'] = 1
+    c['chan4d'] = c['typ'] != 'LABELMAP' and rng.random() < 0.3
+    c['arr'] = _label_array(rng, c['S'], c['R'], c['C'], c['nseg'])
+    c['file_rt'] = False
+    c['rd'] = _rd(rng, lazy)
+    c['ts'] = rng.choice(['explicit', 'explicit', 'implicit'] + (['rle'] if c['typ'] != 'BINARY' else []))
+    if rng.random() < 0.5:
+        c.update(_sub_args(rng, _stored_extent(c['arr'], c['omit']), c['R'], c['C']))
+    return c
+
+
+def _rd_src_case(rng, img):
+    """the same for a segmentation aligned with a source stack (img=False) and for a plain multi-frame CT
+    image (img=True)"""
+    if img:
+        c = _img_case(rng, False)
+        c['kind'] = 'src_img_rd'
+        if c['form'] == 'single':
+            c['form'] = 'multiframe'
+    else:
+        c = _src_case(rng, False)
+        c['kind'] = 'src_rd'
+        c['typ'] = rng.choice(['BINARY', 'BINARY', 'LABELMAP'])
+        c['R'], c['C'] = _shape_with_residue(rng, rng.randrange(8), 6, 7)
+        c['arr'] = _label_array(rng, c['S'], c['R'], c['C'], c['nseg'])
+        c['ts'] = rng.choice(['explicit', 'implicit'])
+        if rng.random() < 0.4:
+            c.update(_sub_args(rng, _stored_extent(c['arr'], c['omit'], c['order']), c['R'], c['C']))
+    c['file_rt'] = False
+    c['rd'] = _rd(rng)
+    return c
+
+
+def _rd_tiled_case(rng, res=None):
+    """a tiled segmentation (tiles with every number of pixels modulo 8, more than one tile) opened again"""
+    while True:
+        c = _tiled_case(rng, False)
+        if res is not None:
+            c['th'], c['tw'] = _shape_with_residue(rng, res, 5, 5)
+        if c['R'] > c['th'] or c['C'] > c['tw']:
+            break
+    c.update({'kind': 'tiled_rd', 'api': 'seg', 'typ': rng.choice(['BINARY', 'BINARY', 'LABELMAP']),
+              'rd': _rd(rng), 'ts': rng.choice(['explicit', 'implicit'])})
+    if rng.random() < 0.5:      # fill the mask: every tile is stored
+        c['M'] = [[1 if rng.random() < 0.6 else 0 for _ in range(c['C'])] for _ in range(c['R'])]
+    return c
+
+
+_PM_ORDERS = ['sorted', 'reversed', 'shuffled', 'interleaved', 'rotated']
+_PM_ENTRIES = ['sources', 'sources', 'multiframe', 'positions', 'positions']
+
+
+def _pm_case(rng, order=None, entry=None, bad=False):
+    """A parametric map in the PATIENT coordinate system: planes on a line (complete stack or with gaps) listed
+    in any order, placed by the source images they are aligned with (a series of single-frame images or one
+    multi-frame image) or by explicit plane_positions (+ plane_orientation / pixel_measures) next to source
+    images with another geometry / number of planes; uint8 / uint16 pixels; read back in memory, eagerly or
+    lazily from a file."""
+    S = rng.choice([2, 3, 3, 4, 5, 6])
+    R, C = rng.randint(1, 4), rng.randint(2, 5)
+    d = _orient(rng)
+    sbs, spr, spc = _sp(rng), _sp(rng), _sp(rng)
+    origin = [_dy(rng, -300, 300), _dy(rng, -300, 300), _dy(rng, -300, 300)]
+    entry = entry or rng.choice(_PM_ENTRIES)
+    order = order or rng.choice(_PM_ORDERS)
+    ms = list(range(S))
+    if rng.random() < 0.25:      # a stack with gaps
+        ms = sorted(rng.sample(range(S + 2), S))
+    if order == 'reversed':
+        ms.reverse()
+    elif order == 'shuffled':
+        rng.shuffle(ms)
+    elif order == 'interleaved':
+        ms = ms[0::2] + ms[1::2]
+    elif order == 'rotated':
+        k = rng.randrange(1, S)
+        ms = ms[k:] + ms[:k]
+
+    def line(dd, org, step, mults):
+        return [[org[i] + F(m) * step * dd[0][i] for i in range(3)] for m in mults]
+    positions = line(d, origin, sbs, ms)
+    dt = rng.choice(['u1', 'u2', 'u2'])
+    top = 250 if dt == 'u1' else 999
+    arr = [[[0 if rng.random() < 0.15 else rng.randint(1, top) for _ in range(C)] for _ in range(R)]
+           for _ in range(S)]
+    has_sbs = rng.random() < 0.65
+    src = {'positions': [_fs(p) for p in positions], 'rowcos': _fs(d[2]), 'colcos': _fs(d[1]),
+           'spr': str(spr), 'spc': str(spc), 'sbs': str(sbs) if has_sbs else None,
+           'multiframe': entry == 'multiframe'}
+    u_pos = u_or = u_pm = None
+    if entry == 'positions':
+        u_pos = [_fs(p) for p in positions]
+        # the source images: another number of planes, listed in their own order, possibly another geometry
+        n_src = rng.choice([1, S, S, S + 1, max(1, S - 1)])
+        other = rng.random() < 0.5
+        ds_ = _orient(rng) if other else d
+        sorg = [_dy(rng, -300, 300) for _ in range(3)] if (other or rng.random() < 0.3) else origin
+        s_sbs = _sp(rng) if other else sbs
+        s_spr, s_spc = (_sp(rng), _sp(rng)) if (other and rng.random() < 0.7) else (spr, spc)
+        sm = list(range(n_src))
+        if rng.random() < 0.5:
+            rng.shuffle(sm)
+        src.update({'positions': [_fs(p) for p in line(ds_, sorg, s_sbs, sm)], 'rowcos': _fs(ds_[2]),
+                    'colcos': _fs(ds_[1]), 'spr': str(s_spr), 'spc': str(s_spc),
+                    'sbs': (str(s_sbs) if has_sbs else None), 'multiframe': rng.random() < 0.3})
+        if ds_ != d or rng.random() < 0.4:
+            u_or = [_fs(d[2]), _fs(d[1])]
+        if (s_spr, s_spc) != (spr, spc) or (has_sbs and s_sbs != sbs) or rng.random() < 0.4:
+            u_pm = [str(spr), str(spc), str(sbs) if rng.random() < 0.7 else None]
+    elif rng.random() < 0.25:
+        u_pm = [str(spr), str(spc), str(sbs) if rng.random() < 0.7 else None]
+    if src['multiframe'] and len(src['positions']) == 1:
+        src['multiframe'] = False
+    c = {'kind': 'pm', 'S': S, 'R': R, 'C': C, 'entry': entry, 'order': order, 'ms': ms, 'src': src,
+         'u_pos': u_pos, 'u_or': u_or, 'u_pm': u_pm, 'arr': arr, 'dt': dt,
+         'ts': rng.choice(['explicit', 'explicit', 'implicit', 'rle'] + (['jpegls'] if min(R, C) >= 5 else [])),
+         'rd': rng.choice([None, _rd(rng), _rd(rng)]), 'rwt': rng.choice([False, False, None]),
+         'api': 'image', 'typ': 'LABELMAP', 'allow_missing': rng.random() < 0.6, 'omit': False,
+         # where the case places the planes (for the oracle)
+         'positions': [_fs(p) for p in positions], 'rowcos': _fs(d[2]), 'colcos': _fs(d[1]),
+         'spr': str(spr), 'spc': str(spc),
+         'ss': None, 'se': None, 'rs': None, 're': None, 'cs': None, 'ce': None, 'as_idx': False}
+    eff_sbs = (u_pm[2] if u_pm is not None else src['sbs'])
+    c['eff_sbs'] = eff_sbs
+    complete = sorted(ms) == list(range(min(ms), min(ms) + S))
+    if bad:
+        c['kind'] = 'pm_err'
+        if entry == 'positions':
+            k = rng.choice([-1, 1, 2])
+            extra = line(d, origin, sbs, range(S + 3, S + 3 + max(k, 0)))
+            c['u_pos'] = (u_pos + [_fs(p) for p in extra]) if k > 0 else u_pos[:k]
+        else:
+            c['src']['positions'] = c['src']['positions'][:-1] if rng.random() < 0.5 else \
+                c['src']['positions'] + [_fs(line(d, origin, sbs, [S + 3])[0])]
+            if c['src']['multiframe'] and len(c['src']['positions']) == 1:
+                c['src']['multiframe'] = False
+    elif complete and rng.random() < 0.5:
+        c.update(_sub_args(rng, S, R, C, bad=rng.random() < 0.15))
+    return c
+
+
+def _pm_tiled_case(rng):
+    """A parametric map in the SLIDE coordinate system whose tiles are aligned with the frames of a tiled source
+    image (TILED_FULL, or TILED_SPARSE with its frames stored in any order), positions taken from the source or
+    handed over explicitly (the source's own); read back as total pixel matrix region through get_volume."""
+    while True:
+        c = _tiled_case(rng, False)
+        if c['R'] > c['th'] or c['C'] > c['tw']:
+            break
+    dt = rng.choice(['u1', 'u2'])
+    top = 250 if dt == 'u1' else 999
+    c['M'] = [[0 if rng.random() < 0.15 else rng.randint(1, top) for _ in range(c['C'])] for _ in range(c['R'])]
+    n = -(-c['R'] // c['th']) * -(-c['C'] // c['tw'])
+    forder = list(range(n))
+    sparse = rng.random() < 0.6
+    if sparse and rng.random() < 0.7:
+        rng.shuffle(forder)
+    c.update({'kind': 'pm_tiled', 'api': 'image', 'typ': 'LABELMAP', 'dt': dt, 'sparse': sparse, 'forder': forder,
+              'explicit': rng.random() < 0.3, 'rd': rng.choice([None, _rd(rng), _rd(rng)]),
+              'ts': rng.choice(['explicit', 'implicit', 'rle'])})
+    return c
+
+
 def _closest_orientation(d):
     """patient orientation string of a volume with (unambiguous) axis directions d: the letter of the patient
     axis every volume axis is closest to (x -> L, y -> P, z -> H; R, A, F for the opposite directions)"""
@@ -906,6 +1098,26 @@ def gen_cases(rng, tier):
         cases.append(_mem_tiled_case(rng, False))
     for _ in range(nv // 4):
         cases.append(_mem_tiled_case(rng, True))
+    # ---- the stored object is written to a file and opened again (eager / lazy frame retrieval) -------------
+    for res in range(8):          # every bit offset of a bit-packed frame, read lazily
+        cases.append(_rd_vol_case(rng, res=res, typ='BINARY', lazy=True))
+        cases.append(_rd_tiled_case(rng, res=res))
+    for _ in range(nv // 3):
+        cases.append(_rd_vol_case(rng))
+    for _ in range(nv // 6):
+        cases.append(_rd_src_case(rng, False))
+        cases.append(_rd_src_case(rng, True))
+        cases.append(_rd_tiled_case(rng))
+    # ---- parametric maps --------------------------------------------------------------------------------
+    for order in _PM_ORDERS:
+        for entry in ('sources', 'multiframe', 'positions'):
+            cases.append(_pm_case(rng, order=order, entry=entry))
+    for _ in range(nv // 2):
+        cases.append(_pm_case(rng))
+    for _ in range(nv // 10):
+        cases.append(_pm_case(rng, bad=True))
+    for _ in range(nv // 4):
+        cases.append(_pm_tiled_case(rng))
     return cases
 
 
@@ -1014,6 +1226,8 @@ def _build_seg(c, info=None):
         kw['max_fractional_value'] = 1 if False else 255
     if c.get('mem'):
         kw['transfer_syntax_uid'] = _TS[c['mem']['ts']]
+    elif c.get('ts'):
+        kw['transfer_syntax_uid'] = _TS[c['ts']]
     before = [w.copy() for w in watch]
     seg = synth.make_seg(src, pix, typ, list(range(1, nseg + 1)), omit_empty_frames=c['omit'], **kw)
     if watch and info is not None:
@@ -1186,6 +1400,206 @@ def _get_vol(c, seg, kw):
     return seg.get_volume(combine_segments=True, **kw)
 
 
+def _reopen(ds, rd, reader, tmp):
+    """write the object in DICOM file format and open it again the way `rd` says (eager / lazy frame
+    retrieval; from bytes, a binary stream, a path string or a PathLike); temporary files are listed in `tmp`"""
+    import io
+    import pathlib
+    import tempfile
+    b = io.BytesIO()
+    ds.save_as(b)
+    data = b.getvalue()
+    if rd['fp'] == 'bytes':
+        fp = data
+    elif rd['fp'] == 'stream':
+        fp = io.BytesIO(data)
+    else:
+        fd, path = tempfile.mkstemp(prefix='c03_', suffix='.dcm')
+        with os.fdopen(fd, 'wb') as fh:
+            fh.write(data)
+        tmp.append(path)
+        fp = path if rd['fp'] == 'path' else pathlib.Path(path)
+    return reader(fp, lazy_frame_retrieval=rd['lazy'])
+
+
+def _cleanup(tmp):
+    for p in tmp:
+        try:
+            os.remove(p)
+        except OSError:
+            pass
+
+
+def _obj_get_vol(c, obj, kw, per_segment=False):
+    """get_volume of an opened object; per_segment: the volume assembled segment by segment and recombined
+    (segmentation interface) / simply read once more (image interface)"""
+    import numpy as np
+    import highdicom as hd
+    if c['api'] == 'image':
+        extra = {'apply_real_world_transform': c['rwt']} if 'rwt' in c else {}
+        return obj.get_volume(dtype=np.float64, allow_missing_positions=c['allow_missing'], **extra, **kw)
+    if c['typ'] == 'FRACTIONAL':
+        return obj.get_volume(combine_segments=False, rescale_fractional=True, **kw)
+    if not per_segment:
+        return obj.get_volume(combine_segments=True, **kw)
+    v = obj.get_volume(combine_segments=False, **kw)
+    a = np.asarray(v.array)
+    nums = np.arange(1, a.shape[-1] + 1).reshape(1, 1, 1, -1)
+    return hd.Volume((a * nums).max(axis=-1), v.affine, coordinate_system='PATIENT',
+                     frame_of_reference_uid=v.frame_of_reference_uid)
+
+
+def _run_rd(c):
+    """'vol_rd' / 'src_rd' / 'src_img_rd': [geometry, full volume, sub-volume, full volume once more (per segment)]
+    of the object after it was written to a file and opened again"""
+    import highdicom as hd
+    tmp = []
+    try:
+        ds = _build_seg(c)
+        obj = _reopen(ds, c['rd'], hd.imread if c['api'] == 'image' else hd.seg.segread, tmp)
+        if c['api'] == 'image':
+            geo = catch(lambda: _geom_out(obj.get_volume_geometry(allow_missing_positions=c['allow_missing'])))
+        else:
+            geo = catch(lambda: _geom_out(obj.get_volume_geometry()))
+        binar = c['api'] == 'image' and c['typ'] != 'LABELMAP'
+        full = catch(lambda: _vol_out(_obj_get_vol(c, obj, {}), binar))
+        sub = catch(lambda: _vol_out(_obj_get_vol(c, obj, _kw(c)), binar))
+        again = catch(lambda: _vol_out(_obj_get_vol(c, obj, {}, per_segment=True), binar))
+        return [geo, full, sub, again]
+    finally:
+        _cleanup(tmp)
+
+
+def _pm_make(src, arr, **kw):
+    import highdicom as hd
+    from pydicom.sr.codedict import codes
+    mapping = hd.pm.RealWorldValueMapping(lut_label='1', lut_explanation='feature', unit=codes.UCUM.NoUnits,
+                                          value_range=[0, 1000], intercept=0, slope=1)
+    return hd.pm.ParametricMap(src, arr, hd.UID(), 1, hd.UID(), 1, 'm', 'mm', '1', 'sn',
+                               contains_recognizable_visual_features=False, real_world_value_mappings=[mapping],
+                               window_center=500.0, window_width=1000.0, **kw)
+
+
+def _pm_sources(c):
+    """the source images of a 'pm' case: a series of single-frame CT images, or one multi-frame image"""
+    import synth
+    s = c['src']
+    orient = [_f(x) for x in s['rowcos']] + [_f(x) for x in s['colcos']]
+    sp = (_f(s['spr']), _f(s['spc']))
+    pos = [[_f(x) for x in p] for p in s['positions']]
+    if s['multiframe']:
+        import numpy as np
+        ds = synth.ct_image_at(pos, c['R'], c['C'], orient, sp, np.zeros((len(pos), c['R'], c['C']), np.int16),
+                               spacing_between_slices=None if s['sbs'] is None else _f(s['sbs']))
+        return [ds]
+    out, first = [], None
+    for k, p in enumerate(pos):
+        ds = synth.ct_frame(p, c['R'], c['C'], orientation=orient, spacing=sp, instance_number=k + 1,
+                            series_uid=first.SeriesInstanceUID if first else None,
+                            study_uid=first.StudyInstanceUID if first else None,
+                            for_uid=first.FrameOfReferenceUID if first else None)
+        if s['sbs'] is not None:
+            ds.SpacingBetweenSlices = _f(s['sbs'])
+        elif 'SpacingBetweenSlices' in ds:
+            del ds.SpacingBetweenSlices
+        if first is None:
+            first = ds
+            ds.SeriesInstanceUID = synth.uid()
+        out.append(ds)
+    return out
+
+
+def _run_pm(c):
+    """[geometry, full volume, sub-volume, per input plane: the position recorded by the frame(s) at that
+    position and the pixels they hold]; a refusal of the constructor is the whole result"""
+    import copy
+    import numpy as np
+    import highdicom as hd
+    src = _pm_sources(c)
+    arr = _mem_cast(np.array(c['arr']).reshape(c['S'], c['R'], c['C']), {'mem': {'dt': c['dt']}})
+    kw = {'transfer_syntax_uid': _TS[c['ts']]}
+    if c['u_pos'] is not None:
+        kw['plane_positions'] = [hd.PlanePositionSequence('PATIENT', [_f(x) for x in p]) for p in c['u_pos']]
+    if c['u_or'] is not None:
+        kw['plane_orientation'] = hd.PlaneOrientationSequence(
+            'PATIENT', [_f(x) for x in c['u_or'][0]] + [_f(x) for x in c['u_or'][1]])
+    if c['u_pm'] is not None:
+        kw['pixel_measures'] = hd.PixelMeasuresSequence(
+            pixel_spacing=(_f(c['u_pm'][0]), _f(c['u_pm'][1])), slice_thickness=1.0,
+            spacing_between_slices=None if c['u_pm'][2] is None else _f(c['u_pm'][2]))
+    tmp = []
+
+    def f():
+        given = [src, kw.get('plane_positions'), kw.get('plane_orientation'), kw.get('pixel_measures')]
+        before, arr0 = copy.deepcopy(given), arr.copy()
+        pm = _pm_make(src, arr, **kw)
+        if not (given == before and np.array_equal(arr, arr0)):
+            return 'the constructor modified its arguments'
+        if c['rd'] is None:
+            obj = hd.Image.from_dataset(pm, copy=True)
+        else:
+            obj = _reopen(pm, c['rd'], hd.imread, tmp)
+        geo = catch(lambda: _geom_out(obj.get_volume_geometry(allow_missing_positions=c['allow_missing'])))
+        full = catch(lambda: _vol_out(_obj_get_vol(c, obj, {})))
+        sub = catch(lambda: _vol_out(_obj_get_vol(c, obj, _kw(c))))
+        rec = [[float(x) for x in it.PlanePositionSequence[0].ImagePositionPatient]
+               for it in obj.PerFrameFunctionalGroupsSequence]
+        frames = []
+        for p in c['positions']:
+            p = [_f(x) for x in p]
+            hit = [i for i, q in enumerate(rec) if all(abs(a - b) <= 1e-6 * (1 + abs(b)) for a, b in zip(q, p))]
+            if len(hit) != 1:
+                frames.append(f'{len(hit)} frames record this position')
+            else:
+                px = obj.get_frame(hit[0] + 1, apply_real_world_transform=False)
+                frames.append([rec[hit[0]], np.asarray(px).astype(np.int64).tolist()])
+        if len(rec) != len(c['positions']):
+            frames.append(f'{len(rec)} frames')
+        return [geo, full, sub, frames]
+    try:
+        return catch(f)
+    finally:
+        _cleanup(tmp)
+
+
+def _run_pm_tiled(c):
+    import numpy as np
+    import highdicom as hd
+    import synth
+    from highdicom.seg.content import DimensionIndexSequence
+    rc, cc = [_f(x) for x in c['rowcos']], [_f(x) for x in c['colcos']]
+    R, C, th, tw = c['R'], c['C'], c['th'], c['tw']
+    sm = synth.sm_tiled(R, C, th, tw, tiled_full=not c['sparse'], samples=3,
+                        origin=(_f(c['origin'][0]), _f(c['origin'][1])),
+                        spacing=(_f(c['spr']), _f(c['spc'])), orientation=rc + cc)
+    z = _f(c.get('srcz') or 0)
+    if c.get('srcz') is not None:
+        sm.TotalPixelMatrixOriginSequence[0].ZOffsetInSlideCoordinateSystem = z
+    if c['sparse']:
+        items = list(sm.PerFrameFunctionalGroupsSequence)
+        for it in items:
+            it.PlanePositionSlideSequence[0].ZOffsetInSlideCoordinateSystem = z
+        sm.PerFrameFunctionalGroupsSequence = [items[t] for t in c['forder']]
+    nc = -(-C // tw)
+    nr = -(-R // th)
+    padded = np.full((nr * th, nc * tw), 9, np.int64)      # outside the total pixel matrix: something non-zero
+    padded[:R, :C] = np.array(c['M'])
+    tiles = np.stack([padded[(t // nc) * th:(t // nc + 1) * th, (t % nc) * tw:(t % nc + 1) * tw]
+                      for t in c['forder']])
+    tiles = _mem_cast(tiles, {'mem': {'dt': c['dt']}})
+    kw = {'transfer_syntax_uid': _TS[c['ts']]}
+    if c['explicit']:
+        kw['plane_positions'] = DimensionIndexSequence('SLIDE').get_plane_positions_of_image(sm)
+    tmp = []
+    try:
+        pm = _pm_make([sm], tiles, **kw)
+        obj = hd.Image.from_dataset(pm, copy=True) if c['rd'] is None else _reopen(pm, c['rd'], hd.imread, tmp)
+        g = obj.get_volume_geometry()
+        return [_geom_out(g), catch(lambda: _vol_out(obj.get_volume(apply_real_world_transform=False, **_kw(c))))]
+    finally:
+        _cleanup(tmp)
+
+
 def _build_sm(c, samples=3):
     import synth
     rc, cc = [_f(x) for x in c['rowcos']], [_f(x) for x in c['colcos']]
@@ -1300,6 +1714,12 @@ def run_impl(c):
             c['rs'], c['re'], c['cs'], c['ce'], c['rows'], c['cols'], c['ai'], c['oi'])))
     if k in ('tiled_place', 'tiled_place_err', 'tiled_place_mem'):
         return _run_place(c)
+    if k in ('vol_rd', 'src_rd', 'src_img_rd'):
+        return _run_rd(c)
+    if k in ('pm', 'pm_err'):
+        return _run_pm(c)
+    if k == 'pm_tiled':
+        return _run_pm_tiled(c)
     if k.startswith('vol') or k.startswith('src'):
         info = {}
         if k in ('vol_hist', 'vol_mem', 'vol_mem_err', 'src_mem'):
@@ -1319,7 +1739,7 @@ def run_impl(c):
         if k in ('vol_hist', 'vol_mem', 'vol_mem_err', 'src_mem'):
             return [geo, full, sub, info.get('untouched')]
         return [geo, full, sub]
-    if k in ('tiled', 'tiled_err', 'tiled_mem'):
+    if k in ('tiled', 'tiled_err', 'tiled_mem', 'tiled_rd'):
         sm = _build_sm(c)
         if c['api'] == 'seg':
             mask = np.array(c['M'], np.uint8).reshape(1, c['R'], c['C'])
@@ -1327,10 +1747,20 @@ def run_impl(c):
             if c.get('mem'):
                 mask = _mem_array(_mem_cast(mask, c), c['mem']['lay'])[0]
                 mkw['transfer_syntax_uid'] = _TS[c['mem']['ts']]
+            elif c.get('ts'):
+                mkw['transfer_syntax_uid'] = _TS[c['ts']]
             obj = synth.make_seg([sm], mask, c['typ'], [1], tile_pixel_array=True, omit_empty_frames=c['omit'],
                                  tile_size=(c['th'], c['tw']), **mkw,
                                  dimension_organization_type='TILED_FULL' if (c['tiled_full'] and not c['omit'])
                                  else 'TILED_SPARSE')
+            if c.get('rd'):
+                tmp = []
+                try:
+                    obj = _reopen(obj, c['rd'], hd.seg.segread, tmp)
+                    return [_geom_out(obj.get_volume_geometry()),
+                            catch(lambda: _vol_out(obj.get_volume(combine_segments=True, **_kw(c))))]
+                finally:
+                    _cleanup(tmp)
             g = obj.get_volume_geometry()
 
             def f():
@@ -1435,7 +1865,20 @@ def coq_term(c):
     if k in ('std_rc', 'std_rc_err'):
         return (f"(run_std_rc {optz(c['rs'])} {optz(c['re'])} {optz(c['cs'])} {optz(c['ce'])} "
                 f"{zlit(c['rows'])} {zlit(c['cols'])} {_b(c['ai'])} {_b(c['oi'])})")
-    k = {'tiled_mem': 'tiled', 'tiled_place_mem': 'tiled_place'}.get(k, k)
+    k = {'tiled_mem': 'tiled', 'tiled_place_mem': 'tiled_place', 'tiled_rd': 'tiled', 'pm_tiled': 'tiled'}.get(k, k)
+    if k in ('pm', 'pm_err'):
+        s = c['src']
+
+        def v3l(ps):
+            return '[' + '; '.join(_v3(p) for p in ps) + ']'
+        u_ps = 'None' if c['u_pos'] is None else f"(Some {v3l(c['u_pos'])})"
+        u_or = 'None' if c['u_or'] is None else f"(Some ({_v3(c['u_or'][0])}, {_v3(c['u_or'][1])}))"
+        u_pm = 'None' if c['u_pm'] is None else \
+            f"(Some ({qlit(F(c['u_pm'][0]))}, {qlit(F(c['u_pm'][1]))}, {_optq(c['u_pm'][2])}))"
+        st = (f"(pm_stored {v3l(s['positions'])} {_v3(s['rowcos'])} {_v3(s['colcos'])} {qlit(F(s['spr']))} "
+              f"{qlit(F(s['spc']))} {_optq(s['sbs'])} {u_ps} {u_or} {u_pm} {zlit(c['R'])} {zlit(c['C'])} "
+              f"{_planes(c['arr'])})")
+        return f"(run_pm {_b(c['allow_missing'])} {st} {_args(c)})"
     if k in ('tiled_place', 'tiled_place_err'):
         src_org = [c['origin'][0], c['origin'][1], c['srcz'] or '0']
         usr_org = [F(a) + F(b) for a, b in zip(src_org, c['d'])]
@@ -1469,23 +1912,24 @@ def coq_term(c):
             else:
                 rv = f"(qvol_permute {zl(m['p'])} {W})"
             return f"(run_stored_vapi {_b(c['allow_missing'])} {rv} {_b(c['omit'])} {_args(c)})"
-        run = 'run_stored_hist' if k in ('vol_hist', 'vol_mem') else 'run_stored'
+        run = 'run_stored_hist' if k in ('vol_hist', 'vol_mem') else 'run_stored_rd' if k == 'vol_rd' else 'run_stored'
         return f"({run} {_b(c['allow_missing'])} {st} {_args(c)})"
     if k.startswith('src') and c.get('form'):
         planes = '[' + '; '.join(f"({_v3(p)}, {zll(a)})" for p, a in _img_kept(c)) + ']'
         st = (f"(Stored {_v3(c['rowcos'])} {_v3(c['colcos'])} {qlit(F(c['spr']))} {qlit(F(c['spc']))} "
               f"{_optq(c['sbs'] if c['src_has_sbs'] else None)} {zlit(c['R'])} {zlit(c['C'])} {planes})")
-        return f"(run_stored {_b(c['allow_missing'])} {st} {_args(c)})"
+        run = 'run_stored_rd' if k == 'src_img_rd' else 'run_stored'
+        return f"({run} {_b(c['allow_missing'])} {st} {_args(c)})"
     if k.startswith('src'):
         ps = '[' + '; '.join(_v3(p) for p in c['positions']) + ']'
         st = (f"(seg_from_sources {ps} {_v3(c['rowcos'])} {_v3(c['colcos'])} {qlit(F(c['spr']))} {qlit(F(c['spc']))} "
               f"{_optq(c['sbs'] if c['src_has_sbs'] else None)} {zlit(c['R'])} {zlit(c['C'])} "
               f"{_planes(c['arr'])} {_b(c['omit'])})")
-        run = 'run_stored_hist' if k == 'src_mem' else 'run_stored'
+        run = 'run_stored_hist' if k == 'src_mem' else 'run_stored_rd' if k == 'src_rd' else 'run_stored'
         return f"({run} {_b(c['allow_missing'])} {st} {_args(c)})"
     if k in ('tiled', 'tiled_err'):
         pos = [c['origin'][0], c['origin'][1], c.get('srcz') or '0']
-        return (f"(run_tiled {_b(c['api'] == 'seg')} {_v3(pos)} {_v3(c['rowcos'])} {_v3(c['colcos'])} "
+        return (f"(run_tiled {_b(c['api'] == 'seg' or c['kind'] == 'pm_tiled')} {_v3(pos)} {_v3(c['rowcos'])} {_v3(c['colcos'])} "
                 f"{qlit(F(c['spr']))} {qlit(F(c['spc']))} None {zlit(c['R'])} {zlit(c['C'])} {zll(c['M'])} {_args(c)})")
     if k in ('pyr_multi', 'pyr_multi_err'):
         z = c.get('srcz') or '0'
@@ -1714,6 +2158,54 @@ def _oracle_place(c, out):
     return None
 
 
+def _oracle_pm(c, out):
+    """a parametric map: every frame holds the pixels of the input plane whose position it records, and the
+    volume read back has every pixel value where the case description (plane position k + r * row spacing *
+    column cosines + c * column spacing * row cosines) put it"""
+    if c['kind'] == 'pm_err':
+        return None if isinstance(out, Err) else \
+            'a number of plane positions other than the number of planes of the pixel array was accepted'
+    if isinstance(out, Err):
+        return f'valid parametric map refused: {out}'
+    if isinstance(out, str):
+        return out
+    geo, full, sub, frames = out
+    for k, (fr, a) in enumerate(zip(frames, c['arr'])):
+        if isinstance(fr, str):
+            return f'input plane {k} at {[_f(x) for x in c["positions"][k]]}: {fr}'
+        if fr[1] != a:
+            return (f'the frame that records the position {fr[0]} of input plane {k} holds other pixels than that '
+                    f'plane ({fr[1]} instead of {a})')
+    if len(frames) != c['S']:
+        return f'{frames[-1]} stored for {c["S"]} planes'
+    ms = c['ms']
+    lo, hi = min(ms), max(ms)
+    gaps = sorted(ms) != list(range(lo, hi + 1))
+    if isinstance(full, Err):
+        if gaps and not c['allow_missing']:
+            return None        # caller asked for a refusal of missing positions
+        if gaps and c['eff_sbs'] is None:
+            g = [b - a for a, b in zip(sorted(ms), sorted(ms)[1:])]
+            if any(x % min(g) for x in g) and full.kind == 'RuntimeError':
+                return None    # no recorded spacing and the stack is not regular at its smallest gap
+        return f'get_volume refused a regular volume: {full}'
+    vin, vout = _vox_map_in(c), _vox_map_out(full)
+    if vin != vout:
+        moved = ([x for x in vin.items() if not vout.contains(*x)] +
+                 [x for x in vout.items() if not vin.contains(*x)])[:3]
+        return f'pixel values moved or changed (first differences {moved})'
+    if gaps and c['eff_sbs'] is None:
+        return None            # the number of slices depends on the smallest gap; positions were checked
+    n0 = hi - lo + 1
+    if full[0] != [n0, c['R'], c['C']]:
+        return f'volume shape {full[0]}, expected {[n0, c["R"], c["C"]]}'
+    if isinstance(geo, Err) or geo is None:
+        return f'get_volume_geometry gives {geo} although get_volume succeeds'
+    if geo[0] != full[0] or not _aff_close(geo[1], full[1]):
+        return 'get_volume().affine / shape differ from get_volume_geometry()'
+    return _check_sub(c, full, sub, n0)
+
+
 def oracle(c, out):
     import numpy as np
     k = c['kind']
@@ -1738,10 +2230,23 @@ def oracle(c, out):
             want = [rr[0] + o, rr[1] + o, cr[0] + o, cr[1] + o]
             return None if list(out) == want else f'returned {out}, documented meaning {want}'
         return None
-    k = {'tiled_mem': 'tiled', 'tiled_place_mem': 'tiled_place'}.get(k, k)
+    k = {'tiled_mem': 'tiled', 'tiled_place_mem': 'tiled_place', 'tiled_rd': 'tiled', 'pm_tiled': 'tiled'}.get(k, k)
     if k in ('tiled_place', 'tiled_place_err'):
         return _oracle_place(c, out)
+    if k in ('pm', 'pm_err'):
+        return _oracle_pm(c, out)
     if k.startswith('vol') or k.startswith('src'):
+        if k in ('vol_rd', 'src_rd', 'src_img_rd'):
+            if not isinstance(out, list) or len(out) != 4:
+                return f'unexpected output {out}'
+            again, first = out[3], out[1]
+            if isinstance(again, Err) != isinstance(first, Err):
+                return f'get_volume() gives {first}, assembled per segment / read a second time {again}'
+            if not isinstance(again, Err) and not (again[0] == first[0] and _aff_close(again[1], first[1]) and
+                                                   again[2] == first[2]):
+                return ('the volume assembled per segment and recombined (segmentation) / read a second time '
+                        '(image) differs from get_volume()')
+            out = out[:3]
         if k in ('vol_hist', 'vol_mem', 'vol_mem_err', 'src_mem'):
             if not isinstance(out, list) or len(out) != 4:
                 return f'unexpected output {out}'
